@@ -59,6 +59,7 @@ type genCfg struct {
 	Timeout  time.Duration
 	Simulate string // non-empty: -simulate num=...
 	Depth    int
+	Filter   string // name of a filter operator in RulesAlpha.tla (default FilterNone)
 	CheckFwd bool // compare forwarded events with Forward(e) (C15)
 	Label    string
 }
@@ -91,9 +92,12 @@ func runRulesGen(c *Check, g genCfg) int64 {
 	if g.Prefix == "" {
 		g.Prefix = "<<>>"
 	}
+	if g.Filter == "" {
+		g.Filter = "FilterNone"
+	}
 	params := paramsModule(c.AllOpenDevs(), "LimV == "+g.Lim.TLA()+"\nPrefixV == "+g.Prefix+"\nReasonsV == "+tlaStrSet(g.Reasons))
-	cfgText := fmt.Sprintf("INIT Init\nNEXT Next\nINVARIANT Emit\nINVARIANT Inv\nCHECK_DEADLOCK FALSE\nCONSTANTS\n Alphabet <- %s\n MaxLen = %d\n Lim <- LimV\n Reasons <- ReasonsV\n Prefix <- PrefixV\n",
-		g.Alphabet, g.MaxLen)
+	cfgText := fmt.Sprintf("INIT Init\nNEXT Next\nINVARIANT Emit\nINVARIANT Inv\nCHECK_DEADLOCK FALSE\nCONSTANTS\n Alphabet <- %s\n MaxLen = %d\n Lim <- LimV\n Reasons <- ReasonsV\n Prefix <- PrefixV\n Filter <- %s\n",
+		g.Alphabet, g.MaxLen, g.Filter)
 
 	var table *genTable
 	leaves := make(chan genLeaf, 4096)
@@ -178,7 +182,7 @@ func replayLeaf(c *Check, g genCfg, t *genTable, rp *rulesReplayer, lf genLeaf) 
 	}
 	np := len(t.Prefix)
 	nontrivial := false
-	for _, e := range evs[np:] {
+	for _, e := range evs {
 		switch e.M {
 		case "OnList", "OnMap", "OnNode", "OnEdge", "OnRecord", "OnRecordType", "OnMarker", "OnReferenceLocal", "OnArrayBegin":
 			nontrivial = true
